@@ -2,11 +2,13 @@
 """seedstatus.py: latest RESULT per seed from /tmp/seedfinal_*.log vs /verif/seeded archive"""
 import glob, json, os, re
 last = {}
+allr = {}
 for f in sorted(glob.glob('/tmp/seedfinal_*.log'), key=os.path.getmtime):
     for l in open(f):
         m = re.match(r'RESULT (C\d+)-(\S+) (.*)', l)
         if m:
             last[(m.group(1), m.group(2))] = m.group(3).strip()
+            allr.setdefault((m.group(1), m.group(2)), []).append(m.group(3).strip())
 allseeds = set()
 for d in glob.glob('/tmp/seedout-C*/[12]') + glob.glob('/tmp/seedout2-C*/[12]'):
     pid = re.search(r'(C\d+)', d).group(1)
@@ -23,7 +25,7 @@ for (pid, k) in sorted(allseeds):
     det = None
     if arch:
         det = json.load(open(f'/verif/seeded/{name}/meta.json'))['check_result']['detected']
-    std = r == 'demo_with_patch=1 existing_tests=0 demo_clean=0 check_exit=1'
+    std = any(re.sub(r'\(expect[^)]*\)', '', x).replace('build=0 ', '') == 'demo_with_patch=1 existing_tests=0 demo_clean=0 check_exit=1' for x in allr.get((pid, k), []))
     flag = ''
     if name in notes: flag = 'NOTE:' + ','.join(notes[name].keys())
     if not (std and arch and det):
